@@ -64,6 +64,10 @@ def cases(tier, seed):
     # tolerances less than 1e-6 apart used one after the other in one process, on cycles that start / end between them
     for ei in range(3):
         yield (('NEAR-EDGES', 0), ei, seed, 0, 0)
+    # smallest representable increases (one ulp, denormals, 1e-17) and exact repeats inside otherwise good cycles:
+    # "strictly increasing" means > 0, however small the step; every ordered triple of the 8 cycle heads
+    for trip in itertools.product(range(8), repeat=3):
+        yield (('TINY', trip), 1, seed, 0, 0)
     for n in range(2, b['templates'] + 1):
         for combo in itertools.product(range(len(TEMPLATES)), repeat=n):
             s = tuple(v for t in combo for v in TEMPLATES[t])
@@ -135,6 +139,8 @@ def check_case(case):
         phase = np.concatenate(parts)
     elif len(s) == 2 and s[0] == 'NEAR-EDGES':
         return check_near_edges(case)
+    elif len(s) == 2 and s[0] == 'TINY':
+        return check_tiny(case)
     elif len(s) == 2 and s[0] == 'BLOCKS':
         lens = [40, 600, 1000, 300, 700, 50]
         phase = np.concatenate([(np.arange(n_) + 0.37) / n_ * 2 * np.pi for n_ in lens])
@@ -272,6 +278,45 @@ def check_case(case):
     else:
         cls = 'all-bad'
     return Outcome(cls=cls, transitions=trans, viols=viols, nontrivial=(cls == 'mixed'))
+
+
+def tiny_heads():
+    q = 0.25
+    return [np.r_[0.0, 5e-324], np.r_[0.0, 1e-17, 2e-17], np.r_[q, np.nextafter(q, 1)], np.r_[0.0, 0.0], np.r_[q, q],
+            np.r_[1e-17, 0.0], np.r_[0.125, 0.125 + 2.0 ** -55, 0.125 + 2.0 ** -54], np.r_[0.01, 0.02]]
+
+
+def check_tiny(case):
+    """Cycles whose first steps are the smallest positive ones (good) or exact repeats / tiny decreases (bad)."""
+    from emd.cycles import get_cycle_vector, is_good, Cycles
+    s, ei, seed = case[:3]
+    edge = EDGES[ei]
+    step = np.pi
+    heads = tiny_heads()
+    cyc = [np.r_[heads[h], 2.0, 3.0, 4.5, 6.2] for h in s[1]]
+    phase = np.concatenate(cyc)
+    want_good = [criteria(c_, edge) for c_ in cyc]
+    desc = 'cycles starting %s (then 2, 3, 4.5, 6.2), phase_edge=%.6f' % ([heads[h].tolist() for h in s[1]], edge)
+    viols = []
+    try:
+        got = np.asarray(get_cycle_vector(phase.copy(), return_good=True, phase_step=step, phase_edge=edge))[:, 0]
+        flags = [bool(is_good(c_.copy(), phase_edge=edge)) for c_ in cyc]
+        cflag = np.asarray(Cycles(phase.copy(), phase_step=step, phase_edge=edge).metrics['is_good']).astype(int).tolist()
+    except Exception as ex:
+        return Outcome(cls='mixed', viols=[('raise:tiny-steps:%s' % type(ex).__name__, '%s raised %r' % (desc, ex))])
+    lab = []
+    k = 0
+    for c_, g in zip(cyc, want_good):
+        lab += [k if g else -1] * len(c_)
+        k += 1 if g else 0
+    if got.tolist() != lab:
+        viols.append(('good-labels:tiny-steps', '%s: labels %s expected %s' % (desc, got.tolist(), lab)))
+    if flags != want_good:
+        viols.append(('is_good:tiny-steps', '%s: is_good %s expected %s' % (desc, flags, want_good)))
+    if cflag != [int(g) for g in want_good]:
+        viols.append(('container-flag:tiny-steps', '%s: container flags %s expected %s' % (desc, cflag, want_good)))
+    cls = 'all-good' if all(want_good) else ('all-bad' if not any(want_good) else 'mixed')
+    return Outcome(cls=cls, transitions=3, viols=viols, nontrivial=True)
 
 
 def check_near_edges(case):
